@@ -590,6 +590,33 @@ def check_construn(rep, mod):
         R.check(msg is None, where, 'r = %d (e.g. a run of %d bytes): %s' % (r, r + 1 + 258 * 16, msg), key='T-CONSTRUN|r%d' % r, sample='r = 257: %s' % ['%#x/%d' % x for x in seq] if r == 257 else None)
 
 
+def check_df_lane_limits(rep):
+    """the vector ICF encoders pack two tokens per 64-bit lane and OR the result onto at most 7 bits left over from what precedes it (the bit buffer for the
+    first lane, the lower 128-bit half for the first lane of the upper half); a token pair that is wider than the lane loses its top bits.  The fast path is
+    taken only if every token is within the per-lane limits of the max_write_d table, so the table has to satisfy the lane arithmetic."""
+    RR = rep.rule('T-DF-LANE-LIMIT', 'encode_deflate_icf_04 / _06: the per-lane token-width limits (max_write_d, read from the assembled objects) fit the 64-bit lanes: for each pair of tokens sharing a lane '
+                  'limit[2k] + limit[2k+1] <= 64, and <= 64 - 7 for the first lane of each 128-bit half, which is shifted by up to 7 pending bits when merged', floor=2, unit='encoders')
+    units = asmdb.units('default')
+    for un, width in (('igzip/encode_df_04.asm', 8), ('igzip/encode_df_06.asm', 1)):
+        u = units.get(un)
+        if u is None:
+            raise AnalysisBroken(un + ' not assembled')
+        RR.instance()
+        b = u.elf.sym_extent('max_write_d')
+        if b is None or len(b) < 4 * width:
+            raise AnalysisBroken(un + ': max_write_d not found')
+        lim = list(struct.unpack('<%dI' % width, b[:4 * width]))
+        if width == 1:
+            lim = lim * 8        # broadcast to every lane
+        bad = []
+        for k in range(0, len(lim), 2):
+            slack = 7 if (k % 4) == 0 else 0
+            if lim[k] + lim[k + 1] + slack > 64:
+                bad.append('tokens %d,%d: %d + %d%s > 64' % (k, k + 1, lim[k], lim[k + 1], ' + 7 pending bits' if slack else ''))
+        RR.check(not bad, un + ':max_write_d', 'per-lane limits %s do not fit the lanes (%s): a token pair at the limit loses its most significant bits on the fast path' % (lim[:8], '; '.join(bad)),
+                 key='T-DF-LANE-LIMIT|' + un, sample='%s: %s' % (un, lim[:8]))
+
+
 def main(tier):
     rep = Report('C01', tier, level='other')
     rep.undecided = UNDECIDED
@@ -607,6 +634,7 @@ def main(tier):
     Ku, _d = mirror.c_values('default', ['huff_codes.h', 'bitbuf2.h', 'igzip_lib.h'], [(n, n) for n in ('MAX_BITBUF_BIT_WRITE', 'DIST_LEN', 'LIT_LEN')], 'c01_useable')
     c18.check_useable_schedule(rep, llir.library('default'), Ku)
     check_construn(rep, llir.library('default'))
+    check_df_lane_limits(rep)
     for c in CONFIGS:
         lay = hufftables_layout(c)
         unpack = unpack_consts(c)
